@@ -14,6 +14,11 @@
 //	             carry scalars, strings, lists, tuples and maps
 //	opaque-atom  value.Opaque with a non-composite signature (separate family;
 //	             'm' and 'o' are observed, not decided, see assumptions)
+//	length-sweep every variable-length leaf through a sweep of lengths, see
+//	             lensweep.go
+//	value-of-value  dynamic values whose own signature is 'm' (a value wrapped
+//	             in 1..3 values) at every position where a dynamic value can
+//	             sit, see valval.go
 //
 // Every encoding is decoded from six deliveries: {data+EOF, EOF separate,
 // followed by 8 sentinel bytes} x {unfragmented, one byte per read}.
@@ -442,8 +447,9 @@ func opaqueFails(clause string, dl delivery) func(*refmodel.Datum) bool {
 	}
 }
 
-func familyOpaque(depth int) (nsigs int, nvals int64) {
-	fam := run.Family("opaque")
+// opaqueSignatures is the signature universe of the family opaque: the
+// composite signatures of Sig(depth, 2) and the fixed signatures with 'o'.
+func opaqueSignatures(depth int) []*refmodel.Type {
 	// 'o' is not an outer atom of the universe here: every decode of a
 	// signature containing 'o' costs two parses of the ObjectReference
 	// signature (~1 ms); a fixed list of signatures covers it in every
@@ -459,6 +465,12 @@ func familyOpaque(depth int) (nsigs int, nvals int64) {
 	for _, s := range objectSigs {
 		comp = append(comp, refmodel.MustParse(s))
 	}
+	return comp
+}
+
+func familyOpaque(depth int) (nsigs int, nvals int64) {
+	fam := run.Family("opaque")
+	comp := opaqueSignatures(depth)
 	counts := make([]int64, len(comp))
 	guards := make(chan *enum.Guard, run.Workers+1)
 	for i := 0; i <= run.Workers; i++ {
@@ -573,6 +585,7 @@ var (
 	nvals         int64
 	obs           map[string]string
 	lengthSweep   map[string]interface{}
+	valueOfValue  map[string]interface{}
 )
 
 func main() {
@@ -589,19 +602,24 @@ func main() {
 			"x every length 0..300 (s, r, m-signature taken alone: every length 0..4200) and, around every power of two from 512 to 64 KiB (thorough: 1 MiB), 2^k-1, 2^k, 2^k+1 and 2^k+2^(k-1), plus 70000 (thorough: s and r alone and at value.List(x, Int), m-signature alone, at every length 0..70000 under the delivery sentinel follows/unfragmented) " +
 			"x the positions alone, value.List(x, Int), value.List(Int, x), Opaque (i t), Opaque (t i), Opaque [t, t'], Opaque ([m<t>, m<i>]) (r: the first three only; coverage.length_sweep lists positions and lengths per leaf) - the full product, no subset - with position-dependent content without period, " +
 			"each value under 9 deliveries (the 6 below, sentinel follows/4093-byte reads, *bytes.Buffer and *bufio.Reader over the encoding and a sentinel); a failure is attributed to the smallest failing length (bisection between enumerated lengths). " +
+			"value-of-value = dynamic values whose own signature is m: W(x,k) = m<x> inside k further dynamic values, k = 0 (control), 1, 2, 3, x in 26 innermost data (the 11 scalar kinds, \"ab\", \"\", void, [i] with one and no element, [s], [m], (is), {sI} with one and no entry, (i)<S,a>, (mi), [(is)], {s[i]}, ()) " +
+			"x 25 positions inside an opaque composite (member of a tuple / struct: sole, non-last, last, both, before / after a plain dynamic value; element of a list inside a tuple and of a list of lists: sole, non-last, last, both; value and key of a map: sole, non-last, last, key and value; member of a tuple, list or map that is itself carried by a dynamic value), full oracle, " +
+			"and x 6 positions read by NewValue itself (the value alone, element of a value.List: sole, non-last, last, element of value.Opaque(\"[m]\"): non-last, last) where for k >= 1 the clauses signature-differs, reencode-differs and value-differs are observed, not decided (coverage.value_of_value lists positions, data and observations) - the full product, 6 deliveries; " +
+			"plus every composite signature of the family opaque that contains m (other than [m] itself, which NewValue reads with its list constructor) x every dynamic value of its distinguished datum in turn replaced by W(x,k), x in i, \"ab\", [i], (mi), k = 1, 2, 3 (depth-3 signatures: x in i, (mi), k = 1, 2, 2 deliveries), 3 deliveries. " +
 			"Every value is evaluated under 6 deliveries ({data+EOF, EOF separate, 8 sentinel bytes follow} x {unfragmented, 1 byte per read}), opaque composites under 3 (exact buffer with data+EOF; sentinel follows; 1 byte per read with a separate EOF); evaluations counts (value, delivery) pairs. " +
-			"A case class is (family, signature shape with struct names dropped | constructor letter and encoding length | list depth, length and element kinds | length-sweep: leaf, position and length class (0..300, 301..4200, power-of-two neighbourhood), outcome); " +
+			"A case class is (family, signature shape with struct names dropped | constructor letter and encoding length | list depth, length and element kinds | length-sweep: leaf, position and length class (0..300, 301..4200, power-of-two neighbourhood), outcome | value-of-value: position, shape of the innermost datum, control or wrapped, outcome; universe: signature shape, outcome); " +
 			"distinct_nontrivial counts the distinct classes executed"
 		extra := map[string]interface{}{
 			"depth": depth, "opaque_composite_signatures": nsigs, "opaque_values": nvals, "list_values": nlists,
 			"deliveries_per_value": len(deliveries), "deliveries_per_opaque_value": len(opaqueDeliveries), "observations_not_decided": obs,
-			"length_sweep": lengthSweep,
+			"length_sweep": lengthSweep, "value_of_value": valueOfValue,
 		}
 		assumptions := []string{
 			"opaque data are produced by the reference model written from doc/about-qimessaging.md; 'r' is taken as count + bytes; 8/16-bit integers as little-endian fixed width",
 			"top-level value.Opaque(\"m\", ...) and value.Opaque(\"o\", ...) are observed but not decided: the statement speaks of composite signatures carried opaquely (NewValue unwraps \"m\" and expands \"o\" to the ObjectReference signature)",
 			"composite signatures containing 'r' or 'X' or 'v' are not enumerated: the repository's signature grammar has no 'r' atom; 'X' has no serialization",
-			"dynamic values nested in opaque data carry i, s, b, C, d, [i], (is), {sI}, v, [s] at nesting level <= 1 and i, s, [i] deeper; a value whose concrete type is itself 'm' is not enumerated",
+			"dynamic values nested in opaque data carry i, s, b, C, d, [i], (is), {sI}, v, [s] at nesting level <= 1 and i, s, [i] deeper in the families opaque and list; dynamic values whose concrete type is itself 'm' (values of values, up to 3 wrappers) are enumerated by the family value-of-value at the stated positions and, in the signature universe, in the distinguished datum only (one dynamic value at a time)",
+			"value-of-value: at the positions read by value.NewValue itself (a value of signature \"m\" alone, as element of a value.List or of value.Opaque(\"[m]\")) NewValue unwraps \"m\" by its dispatch table, so a value of a value comes back as the innermost value: signature-differs / reencode-differs / value-differs are observed there, not decided (same status as top-level value.Opaque(\"m\", ...)); errors, panics, hangs and the number of bytes consumed are decided; more than 3 wrappers are not enumerated",
 			"length-sweep: thresholds on the length of a leaf are looked for at every length up to 300 (4200 for a string, a raw buffer or a signature alone) and next to the powers of two up to 64 KiB (thorough 1 MiB; thorough also every length up to 70000 for a string, a raw buffer and a signature alone); a defect that only shows for lengths in a narrow band elsewhere is not reached; lengths above 1 MiB + 1 (the codec accepts 10 MiB) and lists above the documented cap of 4096 entries are not enumerated",
 			"a decode that does not return within the hang limit (5 executions) is reported as a violation with the clause 'hang' and ends the enumeration",
 		}
@@ -612,6 +630,7 @@ func main() {
 	lengthSweep = familyLengthSweep(run.Thorough())
 	familyConstructors()
 	obs = familyOpaqueAtoms()
+	valueOfValue = familyValueOfValue(depth)
 	nlists = familyLists(depth)
 	nsigs, nvals = familyOpaque(depth)
 	os.Exit(finish())
